@@ -437,7 +437,15 @@ func ctorOwnerRule(P *Program, r *Result, rule string) {
 					continue
 				}
 				args := c.Common().Args
-				if isNilConst(args[2]) {
+				// the buffer this call installs, as the caller passes it (a plain argument, or a field of an options
+				// struct built for the call)
+				noBuffer := len(args) > 2 && isNilConst(args[2])
+				for _, v := range fieldInits(reset, "buf", 0) {
+					if bv, zero, ok := valueAtCall(reset, args, v); ok && (zero || isNilConst(bv)) {
+						noBuffer = true
+					}
+				}
+				if noBuffer {
 					continue
 				}
 				cc := c.(*ssa.Call)
@@ -453,15 +461,13 @@ func ctorOwnerRule(P *Program, r *Result, rule string) {
 					okFlag, detail := false, "the ownership flag is not set to a constant by this call"
 					for _, v := range fieldInits(reset, "disableCache", 0) {
 						var fv ssa.Value = v
-						if p, isP := v.(*ssa.Parameter); isP {
-							fv = nil
-							for i, rp := range reset.Params {
-								if rp == p && i < len(args) {
-									fv = args[i]
-								}
+						if cv, zero, ok := valueAtCall(reset, args, v); ok {
+							fv = cv
+							if zero {
+								fv = nil
 							}
 						}
-						if set, isC := flagConst(fv); isC && set {
+						if set, isC := flagConst(fv); fv != nil && isC && set {
 							okFlag, detail = true, ""
 						} else {
 							okFlag = false
@@ -528,4 +534,81 @@ func viewOfField(fn *ssa.Function, v ssa.Value, field string, depth int) bool {
 		}
 	}
 	return false
+}
+
+// valueAtCall: what v — a parameter of callee, or a field of a struct parameter of callee — is at a call with args.
+// A field of an options struct the caller built in place resolves to the value stored into that field (zero=true when
+// the literal leaves it out). ok=false when v is something else (a constant, a computed value): the caller keeps v.
+func valueAtCall(callee *ssa.Function, args []ssa.Value, v ssa.Value) (val ssa.Value, zero bool, ok bool) {
+	paramIdx := func(x ssa.Value) int {
+		if al, isAl := x.(*ssa.Alloc); isAl {
+			if p := spilledParam(al); p != nil {
+				x = p
+			}
+		}
+		for i, rp := range callee.Params {
+			if ssa.Value(rp) == x {
+				return i
+			}
+		}
+		return -1
+	}
+	if i := paramIdx(v); i >= 0 && i < len(args) {
+		return args[i], false, true
+	}
+	var base ssa.Value
+	field := -1
+	switch x := v.(type) {
+	case *ssa.Field:
+		base, field = x.X, x.Field
+	case *ssa.UnOp:
+		if fa, isFA := x.X.(*ssa.FieldAddr); isFA && x.Op == token.MUL {
+			base, field = fa.X, fa.Field
+		}
+	}
+	if field < 0 {
+		return nil, false, false
+	}
+	i := paramIdx(base)
+	if i < 0 || i >= len(args) {
+		return nil, false, false
+	}
+	// the argument: a struct value loaded from a local the caller filled field by field
+	ld, isLd := args[i].(*ssa.UnOp)
+	if !isLd || ld.Op != token.MUL {
+		return nil, false, false
+	}
+	al, isAl := ld.X.(*ssa.Alloc)
+	if !isAl || al.Referrers() == nil {
+		return nil, false, false
+	}
+	var stored ssa.Value
+	n := 0
+	for _, ref := range *al.Referrers() {
+		fa, isFA := ref.(*ssa.FieldAddr)
+		if !isFA {
+			if ref != ssa.Instruction(ld) {
+				if _, isDbg := ref.(*ssa.DebugRef); !isDbg {
+					return nil, false, false // the local is used in some other way
+				}
+			}
+			continue
+		}
+		if fa.Field != field || fa.Referrers() == nil {
+			continue
+		}
+		for _, r2 := range *fa.Referrers() {
+			if st, isSt := r2.(*ssa.Store); isSt && st.Addr == ssa.Value(fa) {
+				stored = st.Val
+				n++
+			}
+		}
+	}
+	switch n {
+	case 0:
+		return nil, true, true
+	case 1:
+		return stored, false, true
+	}
+	return nil, false, false
 }
